@@ -557,6 +557,71 @@ func Lock(try func() bool, lock func()) {
 	progress()
 }
 
+// Recv is the shim for a blocking channel receive `<-ch` in library code: the
+// task polls and hands the token on while the channel is empty, so that another
+// task (the one that will send or close) can run.
+func Recv[T any](ch <-chan T) T {
+	v, _ := Recv2(ch)
+	return v
+}
+
+// Recv2 is the shim for `v, ok := <-ch`.
+func Recv2[T any](ch <-chan T) (T, bool) {
+	if !isActive() {
+		v, ok := <-ch
+		return v, ok
+	}
+	for {
+		select {
+		case v, ok := <-ch:
+			progress()
+			return v, ok
+		default:
+		}
+		if !blockedYield() {
+			markSelfDeadlockChan()
+			if deadlocked() {
+				DeadlockHook()
+			}
+			v, ok := <-ch
+			return v, ok
+		}
+	}
+}
+
+// Send is the shim for a blocking send statement `ch <- v`.
+func Send[T any](ch chan<- T, v T) {
+	if !isActive() {
+		ch <- v
+		return
+	}
+	for {
+		select {
+		case ch <- v:
+			progress()
+			return
+		default:
+		}
+		if !blockedYield() {
+			markSelfDeadlockChan()
+			if deadlocked() {
+				DeadlockHook()
+			}
+			ch <- v
+			return
+		}
+	}
+}
+
+//go:norace
+//go:noinline
+func markSelfDeadlockChan() {
+	// A single task waiting on a channel: unlike a mutex, a channel may be served
+	// by the runtime (timers) or by a goroutine of the library, so nothing is
+	// concluded here; the caller blocks for real and the wall-clock watchdog is the
+	// backstop.
+}
+
 // DeadlockHook is called when every unfinished task is blocked.  The harness
 // replaces it; the default terminates the process with a recognisable line.
 var DeadlockHook = func() {
